@@ -223,6 +223,28 @@ def _loop_rules(ctx, f, io_attr):
   ctx.floor('C08.R4', 'failing paths of %s' % f.name, n, 1)
 
 
+def failed_open_rules(ctx, why=None):
+  """Mux transport: an open that fails shuts the transport down WITH the fault signal and re-raises (shared with C09: the
+  resurrector enters fail-fast mode and starts retrying on that signal, also when the very first connect fails)."""
+  prog = ctx.prog
+  why = why or ('a failed open must leave the transport Closed with its fault signal raised: the layers above (resurrector, pools) learn about a dead endpoint '
+                'through on_faulted, also when the very first connect fails')
+  oi = prog.func(MUX, 'MuxSocketTransportSink._OpenImpl')
+
+  def mr(call, armed):
+    if U(call.func) in ('self._socket.open', 'self._CheckInitialConnection'):
+      return ['Exception']
+    return []
+  for ev, ex in enum_paths(ctx, oi, mr):
+    if any(e.kind == 'call' and e.info for e in ev):
+      sdn = [e for e in ev if e.kind == 'call' and U(e.node.func) == 'self._Shutdown']
+      ctx.ob('C08.R4', oi, 'failed open shuts the transport down and re-raises', len(sdn) == 1 and ex[0] == 'raise', 'failed open: shutdowns %d, exit %s' % (len(sdn), ex[0]), why)
+      if len(sdn) == 1:
+        c = sdn[0].node
+        quiet = (len(c.args) >= 2 and U(c.args[1]) == 'False') or any(k.arg == 'fault' and U(k.value) == 'False' for k in c.keywords)
+        ctx.ob('C08.R4', oi, 'a failed open raises the fault signal', not quiet, 'failed open calls %s: the fault signal is suppressed' % U(c), why)
+
+
 def r4(ctx):
   prog = ctx.prog
   _loop_rules(ctx, prog.func(MUX, 'MuxSocketTransportSink._SendLoop'), 'write')
@@ -292,10 +314,7 @@ def r4(ctx):
     if U(call.func) in ('self._socket.open', 'self._CheckInitialConnection'):
       return ['Exception']
     return []
-  for ev, ex in enum_paths(ctx, oi, mr):
-    if any(e.kind == 'call' and e.info for e in ev):
-      sdn = [e for e in ev if e.kind == 'call' and U(e.node.func) == 'self._Shutdown']
-      ctx.ob('C08.R4', oi, 'failed open shuts the transport down and re-raises', len(sdn) == 1 and ex[0] == 'raise', 'failed open: shutdowns %d, exit %s' % (len(sdn), ex[0]), why)
+  failed_open_rules(ctx)
   # the handshake yields; a fault during it runs _Shutdown (state Closed, fault signal, socket closed, loops killed).  A late
   # handshake reply must not bring the transport back to Open: the state may be set to Open only after re-checking it
   for ev, ex in enum_paths(ctx, oi, mr):
@@ -314,6 +333,24 @@ def r4(ctx):
            '_OpenImpl sets _state = Open unconditionally after _CheckInitialConnection(): when the peer answers the initial ping and hangs up, _Shutdown runs '
            '(Closed, fault raised, socket and loops gone) and the late ping reply then lets the open complete -- the dead transport reports Open',
            'state is Open iff the connection is usable; a transport that raised its fault signal must not report Open')
+  # a request that waited for a pending open must look at the state again afterwards: the open may have failed, in which case
+  # _Shutdown already failed and reset the tag map and nothing reads the send queue any more
+  apq = prog.func(MUX, 'MuxSocketTransportSink.AsyncProcessRequest')
+  n_q = 0
+  for ev, ex in enum_paths(ctx, apq):
+    puts = [i for i, e in enumerate(ev) if e.kind == 'call' and U(e.node.func) in ('self._send_queue.put', 'self._tag_pool.get')]
+    if not puts:
+      continue
+    ys = [i for i, e in enumerate(ev[:puts[0]]) if e.kind == 'call' and is_yield_call(e.node)]
+    if not ys:
+      continue
+    n_q += 1
+    chk = [e for e in ev[ys[-1] + 1:puts[0]] if e.kind == 'cond' and ('self._state' in U(e.node) or 'self.isActive' in U(e.node) or 'self.is_closed' in U(e.node))]
+    ctx.ob('C08.R4', apq, 'a request that waited for the open re-checks the transport state before it is registered and queued', bool(chk),
+           'after waiting for the pending open the request takes a tag and is queued without testing the state: if the open failed it sits in a tag map that was just reset, '
+           'on a queue nothing reads, and gets no response at all',
+           'every request handed to a transport is answered exactly once; a failed open must fail the requests that waited for it')
+  ctx.floor('C08.R4', 'request paths that wait for a pending open', n_q, 1)
   ia = prog.func(MUX, 'MuxSocketTransportSink.isActive')
   ctx.ob('C08.R4', ia, 'isActive = state is not Closed', U(ia.node.body[-1]).replace(' ', '') == 'returnself._state!=ChannelState.Closed', 'isActive changed', why, nontrivial=False)
 
